@@ -12,7 +12,13 @@
      OuterLock    `e.dependencyMutexMap.Lock(localDep.Label.String())`: the per-dependency lock around the WHOLE
                   step "make the outputs of d present"; blocks (= not enabled) while another task holds it
      CheckFlag    `if localDep.OutputsLoaded { return false, nil }` -- read UNDER the outer lock
-     LoadResult   `e.targetCache.Load(ctx, localDep.ChangeHash)` (d is a cache hit: it succeeds)
+     LoadResult   `e.targetCache.Load(ctx, localDep.ChangeHash)`.  d was a cache hit when IT was checked; the lookup made now
+                  for the dependant succeeds, or -- second FAULT, [result_fails s], fixed by the initial state: the result
+                  file vanished or the backend errs between d's own cache check and the dependants' lookups -- fails:
+                  `if err != nil { return true, rerunDependency() }` ("We cannot even get the target cache: re-run
+                  immediately"): the task goes straight to RerunStart, still under the outer lock and AFTER the flag
+                  check, never entering Registry.LoadOutputs.  "Every lookup fails" is the worst case: a lookup is only
+                  ever made by a task that found the flag false
      Lock         internal/output/registry.go LoadOutputs: `r.targetMutexMap.Lock(target.Label.String())`, the
                   registry's own (inner) lock; blocks while another task holds it
      Recheck      registry.go: `if target.OutputsLoaded { return nil }` under the inner lock
@@ -33,7 +39,8 @@
      OuterUnlock  the deferred `e.dependencyMutexMap.Unlock`
      RunCmd       the dependant's command starts: it READS every output of d (the observation, logged in [obs])
 
-   Out of scope: a re-run whose command fails (Build.v covers the failing path sequentially, tools/c15.py
+   Out of scope: the other dependencies of the dependant (after a failed result lookup the real loop stops: `return true`),
+   a re-run whose command fails (Build.v covers the failing path sequentially, tools/c15.py
    witness_rerun_fails runs it), the recursive LoadDependencyOutputs(d) before the re-run (d's own dependencies:
    the same protocol one level up, locks taken towards ancestors only), restore tasks of LoadOutputs still in
    flight when an earlier task's failure is returned.
@@ -46,15 +53,19 @@
                      `target.OutputsLoaded = true` moved BEFORE the restores, reset when a restore fails
      VRequestedOnce  seed C15f: a "requested once" map consulted and marked at the top of the loop, before the
                      outer lock (`requestedDependencies.LoadOrStore`): every dependant but the first skips d.
+     VLookupBeforeLock  seed C15j: CheckFlag and LoadResult are made BEFORE OuterLock ("a read-only round trip the
+                     dependants need not do one after the other"), the flag is not read again under the lock ("LoadOutputs
+                     re-checks it under the registry's lock" -- true of the load path only): a dependant that found the
+                     flag false and the result unreadable re-runs d as soon as it gets the lock, whatever happened meanwhile.
    [restores], [reruns], [obs], [wrote] are ghost logs: they never influence [step]. *)
 From Coq Require Import Arith Bool List.
 Import ListNotations.
 
-Inductive variant : Type := VCorrect | VFlagEarly | VRequestedOnce | VNoOuterLock.
+Inductive variant : Type := VCorrect | VFlagEarly | VRequestedOnce | VNoOuterLock | VLookupBeforeLock.
 
 (* does the variant take the per-dependency lock of the executor? *)
 Definition outer_locked (v : variant) : bool :=
-  match v with VCorrect | VRequestedOnce => true | VFlagEarly | VNoOuterLock => false end.
+  match v with VCorrect | VRequestedOnce | VLookupBeforeLock => true | VFlagEarly | VNoOuterLock => false end.
 
 Inductive fstate : Type :=
 | Stale    (* absent, or the bytes of another version *)
@@ -94,6 +105,7 @@ Record state : Type := mkState {
   pcs       : nat -> pc;
   requested : bool;                         (* VRequestedOnce only: d is in requestedDependencies *)
   missing   : nat -> bool;                  (* blob i is lost from the cache; never changes *)
+  result_fails : bool;                      (* every lookup of d's target RESULT fails; never changes *)
   restores  : list (nat * nat);             (* ghost: (task, output) of every successful Restore step, latest first *)
   reruns    : list nat;                     (* ghost: the task of every RerunStart step, latest first *)
   obs       : list (nat * list fstate);     (* ghost: (task, what its command saw for outputs 0..n-1), latest first *)
@@ -103,30 +115,30 @@ Record state : Type := mkState {
 Definition upd {A : Type} (f : nat -> A) (t : nat) (x : A) : nat -> A :=
   fun u => if Nat.eqb u t then x else f u.
 
-Definition init (k : nat) (miss : nat -> bool) : state :=
-  mkState false None None (fun _ => Stale) (fun t => if Nat.ltb t k then PStart else PDone) false miss [] [] [] [].
+Definition init (k : nat) (miss : nat -> bool) (rf : bool) : state :=
+  mkState false None None (fun _ => Stale) (fun t => if Nat.ltb t k then PStart else PDone) false miss rf [] [] [] [].
 
 (* one-field updates *)
 Definition set_pc (s : state) (t : nat) (p : pc) : state :=
-  mkState (flag s) (olock s) (lock s) (files s) (upd (pcs s) t p) (requested s) (missing s) (restores s) (reruns s) (obs s) (wrote s).
+  mkState (flag s) (olock s) (lock s) (files s) (upd (pcs s) t p) (requested s) (missing s) (result_fails s) (restores s) (reruns s) (obs s) (wrote s).
 Definition set_flag (s : state) (b : bool) : state :=
-  mkState b (olock s) (lock s) (files s) (pcs s) (requested s) (missing s) (restores s) (reruns s) (obs s) (wrote s).
+  mkState b (olock s) (lock s) (files s) (pcs s) (requested s) (missing s) (result_fails s) (restores s) (reruns s) (obs s) (wrote s).
 Definition set_olock (s : state) (o : option nat) : state :=
-  mkState (flag s) o (lock s) (files s) (pcs s) (requested s) (missing s) (restores s) (reruns s) (obs s) (wrote s).
+  mkState (flag s) o (lock s) (files s) (pcs s) (requested s) (missing s) (result_fails s) (restores s) (reruns s) (obs s) (wrote s).
 Definition set_lock (s : state) (o : option nat) : state :=
-  mkState (flag s) (olock s) o (files s) (pcs s) (requested s) (missing s) (restores s) (reruns s) (obs s) (wrote s).
+  mkState (flag s) (olock s) o (files s) (pcs s) (requested s) (missing s) (result_fails s) (restores s) (reruns s) (obs s) (wrote s).
 Definition set_files (s : state) (f : nat -> fstate) : state :=
-  mkState (flag s) (olock s) (lock s) f (pcs s) (requested s) (missing s) (restores s) (reruns s) (obs s) (wrote s).
+  mkState (flag s) (olock s) (lock s) f (pcs s) (requested s) (missing s) (result_fails s) (restores s) (reruns s) (obs s) (wrote s).
 Definition set_requested (s : state) : state :=
-  mkState (flag s) (olock s) (lock s) (files s) (pcs s) true (missing s) (restores s) (reruns s) (obs s) (wrote s).
+  mkState (flag s) (olock s) (lock s) (files s) (pcs s) true (missing s) (result_fails s) (restores s) (reruns s) (obs s) (wrote s).
 Definition log_restore (s : state) (t i : nat) : state :=
-  mkState (flag s) (olock s) (lock s) (files s) (pcs s) (requested s) (missing s) ((t, i) :: restores s) (reruns s) (obs s) (wrote s).
+  mkState (flag s) (olock s) (lock s) (files s) (pcs s) (requested s) (missing s) (result_fails s) ((t, i) :: restores s) (reruns s) (obs s) (wrote s).
 Definition log_rerun (s : state) (t : nat) : state :=
-  mkState (flag s) (olock s) (lock s) (files s) (pcs s) (requested s) (missing s) (restores s) (t :: reruns s) (obs s) (wrote s).
+  mkState (flag s) (olock s) (lock s) (files s) (pcs s) (requested s) (missing s) (result_fails s) (restores s) (t :: reruns s) (obs s) (wrote s).
 Definition log_obs (s : state) (t : nat) (o : list fstate) : state :=
-  mkState (flag s) (olock s) (lock s) (files s) (pcs s) (requested s) (missing s) (restores s) (reruns s) ((t, o) :: obs s) (wrote s).
+  mkState (flag s) (olock s) (lock s) (files s) (pcs s) (requested s) (missing s) (result_fails s) (restores s) (reruns s) ((t, o) :: obs s) (wrote s).
 Definition log_wrote (s : state) (t : nat) (o : list fstate) : state :=
-  mkState (flag s) (olock s) (lock s) (files s) (pcs s) (requested s) (missing s) (restores s) (reruns s) (obs s) ((t, o) :: wrote s).
+  mkState (flag s) (olock s) (lock s) (files s) (pcs s) (requested s) (missing s) (result_fails s) (restores s) (reruns s) (obs s) ((t, o) :: wrote s).
 
 Definition memb (i : nat) (l : list nat) : bool := existsb (Nat.eqb i) l.
 
@@ -149,6 +161,20 @@ Definition after_restores (v : variant) : pc :=                (* ... after the 
 Definition flag_after_failure (v : variant) (b : bool) : bool :=   (* ... the flag after a failed restore *)
   match v with VFlagEarly => false | _ => b end.
 
+(* the order of the first steps: VLookupBeforeLock (seed C15j) reads the flag and looks the result up BEFORE it queues for
+   the outer lock, and acts on what it found then once it holds the lock *)
+Definition after_start (v : variant) : pc :=                    (* ... after Start *)
+  match v with VLookupBeforeLock => PCheckFlag | _ => POuterLock end.
+Definition after_outerlock (v : variant) (rf : bool) : pc :=    (* ... after OuterLock *)
+  match v with VLookupBeforeLock => if rf then PRerunStart else PLock | _ => PCheckFlag end.
+Definition after_checkflag (v : variant) (fl : bool) : pc :=    (* ... after CheckFlag; fl = the flag as read *)
+  match v with
+  | VLookupBeforeLock => if fl then PRunCmd else PLoadResult    (* `return false, nil` before any lock is taken *)
+  | _ => if fl then POuterUnlock else PLoadResult
+  end.
+Definition after_loadresult (v : variant) (rf : bool) : pc :=   (* ... after LoadResult; rf = the lookup failed *)
+  match v with VLookupBeforeLock => POuterLock | _ => if rf then PRerunStart else PLock end.
+
 Definition observe (n : nat) (s : state) : list fstate := map (files s) (seq 0 n).
 
 (* d's command starts: each of its n outputs is unspecified until this run has written it *)
@@ -160,17 +186,17 @@ Definition step (v : variant) (n : nat) (s : state) (e : event) : option state :
   | SStart, PStart =>
       match v with
       | VRequestedOnce => if requested s then Some (set_pc s t PRunCmd) else Some (set_pc (set_requested s) t POuterLock)
-      | _ => Some (set_pc s t POuterLock)
+      | _ => Some (set_pc s t (after_start v))
       end
   | SOuterLock, POuterLock =>
       if outer_locked v then
         match olock s with
-        | None => Some (set_pc (set_olock s (Some t)) t PCheckFlag)
+        | None => Some (set_pc (set_olock s (Some t)) t (after_outerlock v (result_fails s)))
         | Some _ => None
         end
-      else Some (set_pc s t PCheckFlag)
-  | SCheckFlag, PCheckFlag => Some (set_pc s t (if flag s then POuterUnlock else PLoadResult))
-  | SLoadResult, PLoadResult => Some (set_pc s t PLock)
+      else Some (set_pc s t (after_outerlock v (result_fails s)))
+  | SCheckFlag, PCheckFlag => Some (set_pc s t (after_checkflag v (flag s)))
+  | SLoadResult, PLoadResult => Some (set_pc s t (after_loadresult v (result_fails s)))
   | SLock, PLock =>
       match lock s with
       | None => Some (set_pc (set_lock s (Some t)) t PRecheck)
@@ -210,9 +236,9 @@ Fixpoint run (v : variant) (n : nat) (s : state) (evs : list event) : option sta
   | e :: r => match step v n s e with Some s' => run v n s' r | None => None end
   end.
 
-(* [miss] = the set of blobs lost from the cache: any set *)
-Definition reachable (v : variant) (n k : nat) (miss : nat -> bool) (s : state) : Prop :=
-  exists evs, run v n (init k miss) evs = Some s.
+(* [miss] = the set of blobs lost from the cache: any set; [rf] = every lookup of d's target result fails *)
+Definition reachable (v : variant) (n k : nat) (miss : nat -> bool) (rf : bool) (s : state) : Prop :=
+  exists evs, run v n (init k miss rf) evs = Some s.
 
 (* ------------------------------------------------------------------ what the theorems talk about *)
 Definition is_current (f : fstate) : bool := match f with Current => true | _ => false end.
@@ -226,10 +252,12 @@ Definition cmd_saw_torn (s : state) : bool := existsb (fun to => existsb is_torn
 Definition cached_torn (s : state) : bool := existsb (fun to => existsb is_torn (snd to)) (wrote s).
 Definition no_blob_missing : nat -> bool := fun _ => false.
 Definition run_saw_stale (v : variant) (n k : nat) (evs : list event) : bool :=
-  match run v n (init k no_blob_missing) evs with Some s => cmd_saw_stale s | None => false end.
-(* with the blobs [miss] lost: (a command saw a torn output, torn bytes were cached, number of runs of d's command) *)
-Definition run_fault_summary (v : variant) (n k : nat) (miss : nat -> bool) (evs : list event) : option (bool * bool * nat) :=
-  match run v n (init k miss) evs with
+  match run v n (init k no_blob_missing false) evs with Some s => cmd_saw_stale s | None => false end.
+(* with the blobs [miss] lost, the result lookups failing when [rf]:
+   (a command saw a torn output, torn bytes were cached, number of runs of d's command) *)
+Definition run_fault_summary (v : variant) (n k : nat) (miss : nat -> bool) (rf : bool) (evs : list event)
+  : option (bool * bool * nat) :=
+  match run v n (init k miss rf) evs with
   | Some s => Some (cmd_saw_torn s, cached_torn s, length (reruns s))
   | None => None
   end.
@@ -376,6 +404,6 @@ Definition missing_from (m : nat) : nat -> bool := fun i => Nat.leb m i.
 
 (* the windows of a schedule, then a last entry: the pcs that are not Done at the end (0 = all commands ran) and what
    WriteOutputs cached after a re-run ([task; per output 1 | 0 | 2]) *)
-Definition replay (v : variant) (asc : bool) (n k m : nat) (toks : list token) : list (list (list nat)) :=
-  let r := replay_from v asc n k (init k (missing_from m)) toks in
+Definition replay (v : variant) (asc : bool) (n k m : nat) (rf : bool) (toks : list token) : list (list (list nat)) :=
+  let r := replay_from v asc n k (init k (missing_from m) rf) toks in
   fst r ++ [filter (fun t => negb (is_done (pcs (snd r) t))) (seq 0 k) :: map enc_obs (rev (wrote (snd r)))].
